@@ -413,6 +413,8 @@ inductive SBound where
   | none
   | num (n : Int)
   | str (s : String)
+  /-- a list, a tuple, … : comparing it with `_FIRST_TIMESTAMP` is a `TypeError`, reported as `IndexError` -/
+  | other
 deriving Repr, DecidableEq
 
 /-- `_time_to_frame_index`: `None` stays `None`; a time string is resolved against the scan's own start / stop
@@ -421,6 +423,7 @@ deriving Repr, DecidableEq
 def SView.timeToFrameB (v : SView) (isStart : Bool) : SBound → Except Err (Option Int)
   | .none => .ok none
   | .num n => .ok (some (if n < firstTimestamp then n else v.timeToFrame n isStart))
+  | .other => .error .indexError
   | .str s =>
     match C01.parseTime s with
     | none => .error .runtimeError
@@ -580,6 +583,7 @@ def kop? (s : String) : Option KOp :=
 def oi? (s : String) : Option (Option Int) := optInt? s
 
 def sbound? (s : String) : Option SBound :=
+  if s = "O" then some .other else
   match kbound? s with
   | some .none => some .none
   | some (.ts t) => some (.num t)
